@@ -166,7 +166,7 @@ def U_bundle():
     b1_terms = [Bund("b"), Bund("tb"), Bref("c", "sub"), Anon(x=Sig("u"), y=Sig("v")), AnonDict(x=Sig("u"), y=Sig("v")),
                 Anon(x=Bref("b", "x"), y=Bref("c", "sub", "y")), Anon(x=Slc(Sig("v"), I(0)), y=Slc(Sig("w3"), R(1, 3))),
                 Anon(x=Slc(Bref("b", "y"), I(1)), y=Cat(Sig("u"), Bref("c", "s"))), Pref("k", "bp"),
-                Anon(x=Sig("u"), y=Sig("u")), Anon(x=Sig("u")), Bund("c"), Sig("v"), Anon(x=Pref("k", "bp"), y=Sig("v")),
+                Anon(x=Sig("u"), y=Sig("u")), Anon(x=Sig("u")), Anon(x=Sig("u"), y=Sig("v"), zz=Sig("u")), Bund("c"), Sig("v"), Anon(x=Pref("k", "bp"), y=Sig("v")),
                 Anon(x=Pref("k", "s1"), y=Sig("v"))]
     k_terms = [Bund("b"), Bund("tb"), Pref("i", "bp"), Anon(x=Bref("tb", "x"), y=Sig("v"))]
     for t, kt in itertools.product(b1_terms, k_terms):
